@@ -286,3 +286,156 @@ func TestManagerAddRaces(t *testing.T) {
 	}
 	sec.SetExhaustive()
 }
+
+// TestAddCloserBetweenRunnersAndClosers parks Run at the verif point between "the last runner returned" and
+// "take the lock / start the closers", lets one or more AddCloser calls complete there, and releases Run: a closer
+// accepted in that window is a registered closer - it must be invoked exactly once, Run and Close return only after
+// it finished, and its error is part of the joined result.
+func TestAddCloserBetweenRunnersAndClosers(t *testing.T) {
+	sec := vk.Sec("AddCloserBetweenRunnersAndClosers")
+	idx := 0
+	for nEarly := 0; nEarly <= 2; nEarly++ {
+		for nLate := 1; nLate <= 2; nLate++ {
+			for _, lateErr := range []bool{false, true} {
+				for _, withClose := range []bool{false, true} {
+					idx++
+					if !vk.Mine(idx) {
+						continue
+					}
+					name := fmt.Sprintf("addcloser-mid{early=%d late=%d lateErr=%v closeCall=%v}", nEarly, nLate, lateErr, withClose)
+					if err := runAddCloserMid(t, name, nEarly, nLate, lateErr, withClose); err != nil {
+						t.Fatalf("C12 runner/closer manager violated: %v\ncase: %s", err, name)
+					}
+					sec.Case(true, vk.FP(name), "addcloser.between-runners-and-closers")
+					sec.Sample(func() any { return name })
+				}
+			}
+		}
+	}
+	sec.SetExhaustive()
+}
+
+func runAddCloserMid(t *testing.T, name string, nEarly, nLate int, lateErr, withClose bool) error {
+	var errs vk.Errs
+	berr := vk.Bubble(t, name, func() {
+		var mu sync.Mutex
+		started, finished := map[string]int{}, map[string]int{}
+		gate := make(chan struct{})
+		mk := func(id string, e error) func() error {
+			return func() error {
+				mu.Lock()
+				started[id]++
+				mu.Unlock()
+				<-gate
+				mu.Lock()
+				finished[id]++
+				mu.Unlock()
+				return e
+			}
+		}
+		runnerGate := make(chan struct{})
+		cm := concurrency.NewRunnerCloserManager(quietLogger(), nil, func(ctx context.Context) error {
+			select {
+			case <-runnerGate:
+			case <-ctx.Done():
+			}
+			return nil
+		})
+		for i := 0; i < nEarly; i++ {
+			if e := cm.AddCloser(mk(fmt.Sprintf("early%d", i), nil)); e != nil {
+				errs.Failf("AddCloser before Run: %v", e)
+				return
+			}
+		}
+		ps := &addPause{ch: make(chan struct{})}
+		curAddPause.Store(ps)
+		defer curAddPause.Store(nil)
+		pt := "closer.run.runnersDone"
+		ps.armed.Store(&pt)
+		settle := func() bool {
+			p, e := vk.SettleStacks()
+			if e != nil {
+				errs.Failf("%v\n%s", e, p.Dump)
+				return false
+			}
+			return true
+		}
+		var runErr, closeErr error
+		var runReturned, closeReturned atomic.Bool
+		var wg sync.WaitGroup
+		wg.Add(1)
+		errs.Go(func() { defer wg.Done(); runErr = cm.Run(context.Background()); runReturned.Store(true) })
+		if !settle() {
+			return
+		}
+		close(runnerGate) // the runner returns; Run parks at the point
+		if !settle() {
+			return
+		}
+		if !ps.parked.Load() {
+			errs.Failf("harness: Run did not reach the schedule point")
+			return
+		}
+		var wantErrs []error
+		for i := 0; i < nLate; i++ {
+			var e error
+			if lateErr {
+				e = fmt.Errorf("late-closer-%d-error", i)
+				wantErrs = append(wantErrs, e)
+			}
+			if aerr := cm.AddCloser(mk(fmt.Sprintf("late%d", i), e)); aerr != nil {
+				errs.Failf("AddCloser after the runners returned but before the closers were started failed: %v", aerr)
+				return
+			}
+		}
+		if withClose {
+			wg.Add(1)
+			errs.Go(func() { defer wg.Done(); closeErr = cm.Close(); closeReturned.Store(true) })
+		}
+		close(ps.ch) // Run goes on: takes the lock, starts the closers
+		if !settle() {
+			return
+		}
+		mu.Lock()
+		for i := 0; i < nLate; i++ {
+			if n := started[fmt.Sprintf("late%d", i)]; n != 1 {
+				errs.Failf("closer late%d was accepted by AddCloser but invoked %d times", i, n)
+			}
+		}
+		for i := 0; i < nEarly; i++ {
+			if n := started[fmt.Sprintf("early%d", i)]; n != 1 {
+				errs.Failf("closer early%d invoked %d times", i, n)
+			}
+		}
+		mu.Unlock()
+		if runReturned.Load() {
+			errs.Failf("Run returned while %d accepted closers have not finished", nEarly+nLate)
+			return
+		}
+		if withClose && closeReturned.Load() {
+			errs.Failf("Close returned while %d accepted closers have not finished", nEarly+nLate)
+			return
+		}
+		close(gate)
+		if !settle() {
+			return
+		}
+		if !runReturned.Load() || (withClose && !closeReturned.Load()) {
+			errs.Failf("Run/Close did not return after every closer finished (Run=%v Close=%v)", runReturned.Load(), closeReturned.Load())
+			return
+		}
+		if msg := sameErrors(runErr, wantErrs); msg != "" {
+			errs.Failf("Run result: %s", msg)
+		}
+		if withClose {
+			if msg := sameErrors(closeErr, wantErrs); msg != "" {
+				errs.Failf("Close result: %s", msg)
+			}
+		}
+		wg.Wait()
+	})
+	if e := errs.Err(); e != nil {
+		return e
+	}
+	return berr
+}
